@@ -326,7 +326,13 @@ fn main() {
     for cfg in MODE_CFGS.iter() {
         let kinds = if cfg.src == 3 { vec![Kind::Circle, Kind::Hold(300)] } else { vec![Kind::Circle, Kind::Slider2, Kind::Spinner(600)] };
         let alpha = Alphabet::product(&kinds, &[0, 150], &[PosK::Same], &[0], &[0]);
-        let setts = [Setting::nm(), Setting::bits(settings::DT), Setting { passed: Some(0), ..Setting::nm() }, Setting { passed: Some(1), ..Setting::nm() }, Setting { passed: Some(2), ..Setting::nm() }];
+        let mut setts = vec![Setting::nm(), Setting::bits(settings::DT), Setting { passed: Some(0), ..Setting::nm() }, Setting { passed: Some(1), ..Setting::nm() }, Setting { passed: Some(2), ..Setting::nm() }];
+        // mods that switch skills off (the bulk path of nth and the single-step path of next must skip the same ones): on
+        // maps of <= 4 objects like the limited settings
+        setts.push(Setting { passed: Some(u32::MAX), ..Setting::bits(settings::RX) });
+        if cfg.dst == 0 {
+            setts.push(Setting { passed: Some(u32::MAX), ..Setting::bits(settings::AP) });
+        }
         let total = alpha.count_upto(n_max);
         let name = format!("grammar/{}to{}/N<={}", cfg.src, cfg.dst, n_max);
         ctx.universe(&name, total, |idx, l| {
